@@ -36,10 +36,19 @@ Proof.
   - destruct (xorb s t); reflexivity.
 Qed.
 
+Lemma eqb_true_not_nan x e :
+  PrimFloat.eqb x e = true -> is_nan x = false /\ is_nan e = false.
+Proof.
+  rewrite FloatAxioms.eqb_spec. unfold SFeqb, is_nan, view.
+  destruct (Prim2SF x) as [s| s| |s m ex]; destruct (Prim2SF e) as [t| t| |t n ee];
+    simpl; intros H; try discriminate; auto.
+Qed.
+
 Lemma eqb_true_value_ok x e pr :
   PrimFloat.eqb x e = true -> float_value_ok x e pr = true.
 Proof.
-  intros H. unfold float_value_ok. destruct pr as [pr|].
+  intros H. unfold float_value_ok. destruct (eqb_true_not_nan _ _ H) as [-> ->]. cbn [orb].
+  destruct pr as [pr|].
   - unfold prec_equal. destruct (eqb_true_cases _ _ H) as [->|(s & t & Hx & He)].
     + destruct (py_round (PrimFloat.mul e (scale10 (iz pr)))); [apply Z.eqb_refl | exact H].
     + rewrite (py_round_zero_mul _ _ _ Hx), (py_round_zero_mul _ _ _ He).
